@@ -72,7 +72,7 @@ fn main() {
         let case = args.shard * per + i;
         let mut rng = Rng::derive(args.seed, case, fnv_str(&prop));
         let variant = rng.below(12);
-        let p = profile_for(&prop, variant, args.thorough());
+        let p = profile_for(args.get_str("profile").unwrap_or(&prop), variant, args.thorough());
         let h = gen_history(&mut rng, &p);
         if i % 64 == 0 {
             mark_case(&args.out, case, "hist");
